@@ -31,16 +31,22 @@ use tvh::*;
 // ------------------------------------------------------------------ printing
 
 fn hexlit(b: &[u8]) -> String {
-    if b.is_empty() {
-        return "(B 0 0)".to_string();
+    fn one(b: &[u8]) -> String {
+        if b.is_empty() {
+            return "(B 0 0)".to_string();
+        }
+        let mut s = String::with_capacity(b.len() * 2 + 16);
+        s.push_str(&format!("(B {} 0x", b.len()));
+        for x in b {
+            s.push_str(&format!("{x:02x}"));
+        }
+        s.push(')');
+        s
     }
-    let mut s = String::with_capacity(b.len() * 2 + 16);
-    s.push_str(&format!("(B {} 0x", b.len()));
-    for x in b {
-        s.push_str(&format!("{x:02x}"));
+    if b.len() <= 1024 {
+        return one(b);
     }
-    s.push(')');
-    s
+    format!("(BS [{}])", b.chunks(1024).map(one).collect::<Vec<_>>().join("; "))
 }
 
 fn gal_span(sp: &Span) -> String {
@@ -48,6 +54,21 @@ fn gal_span(sp: &Span) -> String {
         "(SP {} {} {} {} {} {})",
         sp.start_line, sp.start_col, sp.end_line, sp.end_col, sp.range.start, sp.range.end
     )
+}
+
+/// a list of spans as one packed literal (12 bytes per span); None if a field needs > 16 bits
+fn spans_lit(sps: &[Span]) -> Option<String> {
+    let mut b = Vec::with_capacity(sps.len() * 12);
+    for sp in sps {
+        for v in [sp.start_line, sp.start_col, sp.end_line, sp.end_col, sp.range.start, sp.range.end] {
+            if v > 0xffff {
+                return None;
+            }
+            b.push((v >> 8) as u8);
+            b.push((v & 0xff) as u8);
+        }
+    }
+    Some(hexlit(&b))
 }
 
 fn json_span(sp: &Span) -> serde_json::Value {
@@ -782,10 +803,15 @@ impl<'a> Run<'a> {
         if !exact {
             note_lits.clear();
         }
+        let expected: &str = if exact { &display } else { display.find("\n\nnote: ").map_or(&display[..], |p| &display[..p]) };
+        let mut h: u64 = 0xcbf29ce484222325;
+        for b in expected.bytes() {
+            h = (h ^ b as u64).wrapping_mul(0x100000001b3);
+        }
         let g = format!(
-            "{{| rp_msg := {}; rp_file := {}; rp_src := {}; rp_span := {}; rp_notes := [{}]; rp_exact := {}; rp_impl := {} |}}",
+            "{{| rp_msg := {}; rp_file := {}; rp_src := {}; rp_span := {}; rp_notes := [{}]; rp_exact := {}; rp_len := {}; rp_hash := {} |}}",
             hexlit(info.message.as_bytes()), hexlit(info.filename.as_bytes()), hexlit(src.as_bytes()), gal_span(span),
-            note_lits.join("; "), gal_bool(exact), hexlit(display.as_bytes())
+            note_lits.join("; "), gal_bool(exact), expected.len(), h
         );
         let mut d = p.desc.clone();
         d["error"] = json!({"class": info.class, "message": info.message, "filename": info.filename, "span": json_span(span), "display": display});
@@ -937,7 +963,7 @@ impl<'a> Run<'a> {
         // raw tokens
         match lex(src, Delimiters::default(), false) {
             Ok(toks) => {
-                let spans: Vec<String> = toks.iter().map(|(_, sp)| gal_span(sp)).collect();
+                let Some(spans) = spans_lit(&toks.iter().map(|(_, sp)| sp.clone()).collect::<Vec<_>>()) else { return };
                 self.n_token_spans += toks.len();
                 for (_, sp) in &toks {
                     self.meta.oracle_checks += 1;
@@ -945,7 +971,7 @@ impl<'a> Run<'a> {
                         self.meta.oracle_fail(&format!("token span: {why}"), None, json!({"source": src, "label": label, "span": json_span(sp)}));
                     }
                 }
-                let g = format!("{{| sc_src := {}; sc_spans := [{}] |}}", hexlit(src.as_bytes()), spans.join("; "));
+                let g = format!("{{| sc_src := {}; sc_spans_lit := {} |}}", hexlit(src.as_bytes()), spans);
                 let multi = src.contains('\n') && !src.is_ascii();
                 self.tokens.push(g, json!({"label": label, "source": src, "tokens": toks.len()}), multi && toks.len() >= 3, None,
                     &[if src.is_ascii() { "ascii" } else { "non-ascii" }, if src.contains('\n') { "multi-line" } else { "one-line" }]);
@@ -958,7 +984,7 @@ impl<'a> Run<'a> {
                     if let Some(why) = span_problem(src, sp) {
                         self.meta.oracle_fail(&format!("lexer error span: {why}"), None, json!({"source": src, "label": label, "span": json_span(sp), "message": info.message}));
                     }
-                    let g = format!("{{| sc_src := {}; sc_spans := [{}] |}}", hexlit(src.as_bytes()), gal_span(sp));
+                    let g = format!("{{| sc_src := {}; sc_spans_lit := {} |}}", hexlit(src.as_bytes()), spans_lit(std::slice::from_ref(sp)).unwrap_or_else(|| "(B 0 0)".into()));
                     self.spans.push(g, json!({"label": label, "source": src, "what": "lexer-error", "message": info.message}), !src.is_ascii(), None, &["lexer-error"]);
                 }
             }
@@ -1020,7 +1046,8 @@ impl<'a> Run<'a> {
                 self.meta.oracle_fail(&format!("{what} span: {why}"), None, json!({"source": src, "label": label, "span": json_span(sp)}));
             }
         }
-        let g = format!("{{| sc_src := {}; sc_spans := [{}] |}}", hexlit(src.as_bytes()), all.iter().map(gal_span).collect::<Vec<_>>().join("; "));
+        let Some(lit) = spans_lit(&all) else { return };
+        let g = format!("{{| sc_src := {}; sc_spans_lit := {} |}}", hexlit(src.as_bytes()), lit);
         let multi = src.contains('\n') && !src.is_ascii();
         self.spans.push(g, json!({"label": label, "source": src, "what": what, "spans": all.len()}), multi && all.len() >= 3, None, &[what]);
     }
@@ -1044,8 +1071,8 @@ impl<'a> Run<'a> {
                 self.meta.oracle_fail(&format!("token span (custom delimiters): {why}"), None, json!({"source": alt, "label": label, "span": json_span(sp)}));
             }
         }
-        let spans: Vec<String> = toks.iter().map(|(_, sp)| gal_span(sp)).collect();
-        let g = format!("{{| sc_src := {}; sc_spans := [{}] |}}", hexlit(alt.as_bytes()), spans.join("; "));
+        let Some(spans) = spans_lit(&toks.iter().map(|(_, sp)| sp.clone()).collect::<Vec<_>>()) else { return };
+        let g = format!("{{| sc_src := {}; sc_spans_lit := {} |}}", hexlit(alt.as_bytes()), spans);
         let multi = alt.contains('\n') && !alt.is_ascii();
         self.tokens.push(g, json!({"label": label, "source": alt, "tokens": toks.len(), "delimiters": "<% %> << >> <# #>"}), multi && toks.len() >= 3, None, &["custom-delimiters"]);
     }
@@ -1310,10 +1337,10 @@ fn hull_cases(hull: &mut Sink, meta: &mut Meta, ctx: &Context) {
                         let tbl: Vec<String> = main
                             .after
                             .iter()
-                            .map(|(_, spans)| format!("[{}]", spans.iter().map(gal_span).collect::<Vec<_>>().join("; ")))
+                            .map(|(_, spans)| spans_lit(spans).unwrap_or_else(|| "(B 0 0)".into()))
                             .collect();
                         let g = format!(
-                            "{{| h_tbl := [{}]; h_a := R {} {}; h_b := R {} {}; h_impl := {} |}}",
+                            "{{| h_tbl_lit := [{}]; h_a := R {} {}; h_b := R {} {}; h_impl := {} |}}",
                             tbl.join("; "), ra.0, ra.1, rb.0, rb.1, gal_span(&sp)
                         );
                         meta.oracle_checks += 1;
